@@ -55,7 +55,7 @@ KwSets(o) == IF AllKw THEN SUBSET Names(d) ELSE Cuts(d, o)
 (* cache may be cleared at any time (pipeline.cache.clear()), which also keeps the bounded model free of deadlocks       *)
 ClearCache == /\ ~lazy /\ phase = "idle" /\ nh = 0 /\ memo # {}
               /\ memo' = {}
-              /\ UNCHANGED <<cvars, lazy, dag, nev, count, val, graph, nh>>
+              /\ UNCHANGED <<cvars, lazy, dag, nev, count, val, graph, nh, fvars>>
 RefHit == MayBeOld(d, kw, out, memo)
 (* the eager twin under its fault plan (valid cuts): begin ; invocations that complete / one that raises ; return / raise *)
 EagerNext == \/ (phase = "idle" /\ ~lazy /\ nh = 0 /\ \E o \in AllOutputs(d) : \E C \in Cuts(d, o) : \E m \in Modes :
